@@ -1,5 +1,6 @@
 import PyecoreModel.Model.Store
 import PyecoreModel.Model.StoreNav
+import PyecoreModel.Model.Commands
 /-! Line protocol for the Store model (C01 C02 C03 C05 C07 C11 C19).  Same records as `harness/store.py::World`. -/
 namespace Store.Proto
 open Store
@@ -9,6 +10,7 @@ structure S where
   supers  : Array (List Cid) := #[]
   abstr   : Array Bool := #[]
   st      : St := {}
+  cs      : CStack := {}
 
 def init : S := {}
 
@@ -152,6 +154,24 @@ def step (p : S) (line : String) : S × String :=
     ({ p with feats := p.feats.push F }, "ok")
   | ["mm", "end"] => (p, "ok")
   | "q" :: rest => (p, match query p rest with | some r => r | none => "bad-op")
+  | "cmd" :: rest =>
+    let optInt (t : String) : Option (Option Int) := if t == "-" then some none else t.toInt?.map some
+    let optVal (t : String) : Option (Option PyVal) := if t == "-" then some none else (parseVal t).map some
+    let letter : Option Letter := match rest with
+      | ["undo"] => some .undo
+      | ["redo"] => some .redo
+      | ["exec", "Set", x, f, v] => do pure (.exec (.set (← x.toNat?) (← f.toNat?) (← parseVal v)))
+      | ["exec", "Add", x, f, v, i] => do pure (.exec (.add (← x.toNat?) (← f.toNat?) (← parseVal v) (← optInt i)))
+      | ["exec", "Remove", x, f, v, i] => do pure (.exec (.remove (← x.toNat?) (← f.toNat?) (← optVal v) (← optInt i)))
+      | ["exec", "Move", x, f, a, b, v] => do
+        pure (.exec (.move (← x.toNat?) (← f.toNat?) (← optInt a) (← b.toInt?) (← optVal v)))
+      | _ => none
+    match letter with
+    | none => (p, "bad-op")
+    | some l =>
+      let (cs', st', out) := cstep p.mm p.cs p.st l
+      let p' := { p with cs := cs', st := st' }
+      (p', out ++ s!" n={cs'.n} len={cs'.stack.length} | " ++ dump p')
   | _ =>
     match parseOp ws with
     | none => (p, "bad-op")
